@@ -122,40 +122,56 @@ def main():
     # ------------------------------------------------------------------ 1. deductive part
     n_obl = n_dis = 0
     if not args.no_proof:
+        import multiprocessing as mp
+        from pyvc import worker
         try:
-            reg = Registry().load_package("contracts")
+            reg = worker.registry()
         except Exception:  # noqa
             traceback.print_exc()
             return 3
-        repo = Repo()
-        targets = [c for c in reg.contracts.values() if not c.extern and prop in c.all_props()]
+        targets = sorted(c.target for c in reg.contracts.values() if not c.extern and prop in c.all_props())
         if not targets:
             errors.append("no function under contract is tagged with %s (zero obligations)" % prop)
-        all_obl, all_probe = [], []
-        for con in sorted(targets, key=lambda c: c.target):
-            eng = Exec(repo, reg)
-            try:
-                res = eng.verify(con)
-            except (Unsupported, SourceError) as ex:
-                undecided.append({"function": con.target, "reason": "%s: %s" % (type(ex).__name__, ex)})
-                continue
-            except Exception as ex:  # noqa
-                errors.append("pyvc crashed on %s: %s" % (con.target, traceback.format_exc()[-1200:]))
-                continue
-            mine = [o for o in res["obligations"] if prop in o.props]
-            functions.append({"function": con.target, "paths": res["paths"], "obligations": len(mine),
-                              "obligations_all_properties": len(res["obligations"]), "trivially_true": res["trivial"]})
-            ghost_assumes += res["ghost_assumes"]
-            all_obl += [(con, o) for o in mine]
-            all_probe += [(con, pr) for pr in res["probes"]]
+        by_name = {l.name: l for l in reg.logic.lemmas}
+        jobs = [("function", t, prop) for t in targets]
+        lemma_todo = [l.name for l in reg.logic.lemmas if prop in l.props]
+        done_lemmas = set()
+        packed, probes = [], []
+        ctx = mp.get_context("fork")
+        with ctx.Pool(processes=min(12, max(1, len(jobs) + 4))) as pool:
+            pending = [pool.apply_async(worker.verify_target, (j,)) for j in jobs]
+            while pending or lemma_todo:
+                for nme in lemma_todo:
+                    if nme not in done_lemmas and nme in by_name:
+                        done_lemmas.add(nme)
+                        pending.append(pool.apply_async(worker.verify_target, (("lemma", nme, None),)))
+                lemma_todo = []
+                if not pending:
+                    break
+                r = pending.pop(0).get()
+                if r["status"] == "undecided":
+                    undecided.append({"function": r["target"], "reason": r["reason"]})
+                    continue
+                if r["status"] == "error":
+                    errors.append("pyvc crashed on %s: %s" % (r["target"], r["reason"]))
+                    continue
+                functions.append({"function": r["target"], "paths": r["paths"], "obligations": len(r["obligations"]),
+                                  "obligations_all_properties": r["n_all"], "trivially_true": r["trivial"]})
+                ghost_assumes += r["ghost_assumes"]
+                lemma_todo += [l for l in r["lemmas_used"] if l not in done_lemmas]
+                for o in r["obligations"]:
+                    o["function"] = r["target"]
+                    packed.append(o)
+                probes += r["probes"]
         for c in reg.contracts.values():
             if c.extern:
                 assumed_contracts.add("%s%s" % (c.target, (" -- " + c.trusted_reason) if c.trusted_reason else ""))
-        results, texts = solve.discharge([o for _, o in all_obl], timeout_s=timeout_s)
-        for (con, o), r, txt in zip(all_obl, results, texts):
+        texts = [o["smt2"] for o in packed]
+        results = solve.discharge_texts(texts, timeout_s=timeout_s)
+        for o, r, txt in zip(packed, results, texts):
             n_obl += 1
             solver_time += r["time"]
-            rec = {"name": o.name, "kind": o.kind, "function": con.target, "at": o.where, "clause": o.text,
+            rec = {"name": o["name"], "kind": o["kind"], "function": o["function"], "at": o["at"], "clause": o["clause"],
                    "status": r["status"], "solver": r["solver"], "time_s": r["time"]}
             if r["status"] == "unsat":
                 n_dis += 1
@@ -168,20 +184,20 @@ def main():
         # thorough: second solver on every discharged VC
         if tier == "thorough":
             idx = [i for i, r in enumerate(results) if r["status"] == "unsat"]
-            with cf.ThreadPoolExecutor(max_workers=16) as ex:
+            with cf.ThreadPoolExecutor(max_workers=12) as ex:
                 futs = {}
                 for i in idx:
                     other = ["cvc5"] if results[i]["solver"] != "cvc5" else ["z3new"]
-                    futs[ex.submit(solve.solve_text, texts[i], timeout_s, None, other)] = i
+                    futs[ex.submit(solve.solve_text, texts[i], timeout_s, None, other)] = (i, other[0])
                 for f in cf.as_completed(futs):
-                    i = futs[f]
+                    i, oth = futs[f]
                     r2 = f.result()
-                    ob_records[i]["second_solver"] = "%s:%s" % (r2["solver"] if r2["status"] != "unknown" else other[0], r2["status"])
+                    ob_records[i]["second_solver"] = "%s:%s" % (oth, r2["status"])
                     if r2["status"] == "sat":
                         errors.append("solver disagreement on %s" % ob_records[i]["name"])
         # vacuity probes (only meaningful when nothing failed)
         if all(r["status"] == "unsat" for r in results) and not undecided:
-            for nme in solve.probe([pr for _, pr in all_probe]):
+            for nme in solve.probe_texts(probes):
                 errors.append("vacuity: %s" % nme)
 
     # ------------------------------------------------------------------ 2. concrete part
@@ -205,7 +221,10 @@ def main():
             m = k.get("match", {})
             if kind == "obligation" and m.get("obligation") and m["obligation"] in name:
                 return k
-            if kind == "rt" and m.get("rt_check") == name and (m.get("class") is None or m.get("class") == cls):
+            mc = m.get("class")
+            if isinstance(mc, str):
+                mc = [mc]
+            if kind == "rt" and m.get("rt_check") == name and (mc is None or cls in mc):
                 return k
         return None
 
